@@ -142,7 +142,9 @@ def reset_function_state():
             continue
         fd, d, kd = base
         if f.__dict__ or fd:
-            f.__dict__ = {k: _fresh(v) for k, v in fd.items()}
+            # in place: the simulator keeps references to the live attribute dicts
+            f.__dict__.clear()
+            f.__dict__.update({k: _fresh(v) for k, v in fd.items()})
         if d is not None:
             f.__defaults__ = _fresh(d)
         if kd is not None:
